@@ -148,11 +148,12 @@ class PDFStreamParser(PDFParser):
     def do_keyword(self, pos: int, token: PSKeyword) -> None:
         if token is self.KEYWORD_R:
             # reference to indirect object
-            (_, _object_id), _ = self.pop(2)
-            object_id = safe_int(_object_id)
-            if object_id is not None:
-                obj = PDFObjRef(self.doc, object_id)
-                self.push((pos, obj))
+            if len(self.curstack) >= 2:
+                (_, _object_id), _ = self.pop(2)
+                object_id = safe_int(_object_id)
+                if object_id is not None:
+                    obj = PDFObjRef(self.doc, object_id)
+                    self.push((pos, obj))
             return
 
         elif token is self.KEYWORD_NULL:
